@@ -28,8 +28,10 @@ RULE = (
     " couplings x adapter extras {none, permutate, extra topology}; non-trivial = model"
     " with >= 2 amplitudes and >= 1 kinematic variable; distinct = distinct (reaction,"
     " alignment, dynamics, switches); size bounds: quick <= 40 transitions (axis-angle <= 16,"
-    " <= 40 with several topologies; DPD <= 24), thorough <= 200 transitions (axis-angle <= 48,"
-    " DPD <= 100)"
+    " <= 40 with several topologies; DPD <= 24), thorough <= 200 transitions (axis-angle: <= 24,"
+    " <= 3 final-state particles, product of (2s+1) over the final state <= 6, or several topologies with <= 40 transitions; DPD 1: <= 48,"
+    " DPD 2/3: <= 16); aligned models: six switch"
+    " combinations, dynamics {none, BW+ff}"
 )
 ASSUMPTIONS = [
     "numeric evaluation (oracle iv) is done for the first and the last switch combination"
@@ -186,13 +188,20 @@ def cases(tier, seed):
                 continue
             # thorough: size bounds for aligned models (unfolding the rotation sums of an
             # axis-angle model with > 48 transitions takes tens of minutes per model)
-            if tier != "quick" and align == "aa" and len(r.transitions) > 48:
+            spin_weight = math.prod(int(2 * p.spin + 1) for p in r.final_state.values())
+            multi_ok = n_topologies > 1 and len(r.transitions) <= 40 and n_final <= 3 and spin_weight <= 9
+            if tier != "quick" and align == "aa" and not multi_ok and (
+                    len(r.transitions) > 24 or n_final > 3 or spin_weight > 6):
                 continue
-            if tier != "quick" and align.startswith("dpd") and len(r.transitions) > 100:
+            if tier != "quick" and align == "dpd1" and len(r.transitions) > 48:
+                continue
+            if tier != "quick" and align in {"dpd2", "dpd3"} and len(r.transitions) > 16:
                 continue
             if n_final == 2 and align == "aa" and tier == "quick" and "spec" in rdesc and rdesc["spec"].get("init") == "pm":
                 continue
             dyns = ["none", "bw"] if tier == "quick" else ["none", "bw", "bwff", "analytic"]
+            if tier != "quick" and align != "none":
+                dyns = ["none", "bwff"] if len(r.transitions) <= 24 else ["none"]
             if tier == "quick" and align == "none":
                 dyns = ["none", "bw", "bwff"]
             if align != "none" and (heavy or tier == "quick"):
@@ -281,6 +290,11 @@ def switch_product(final_ids: list[int], tier: str = "thorough", aligned: bool =
                 (None, True, True, "none"), ([], False, True, "none"),
                 ([ids[0]], True, False, "none"), (ids, False, False, "none"),
                 (None, False, False, "permutate"), (None, False, False, "extra")]
+    if aligned:
+        # unfolding an aligned model costs seconds: six combinations instead of nineteen
+        return [(None, False, False, "none"), (ids, True, True, "none"),
+                ([ids[0]], False, True, "none"), ([], True, False, "none"),
+                (None, False, False, "permutate"), (None, False, False, "extra")]
     combos = [(None, False, False, "none"), (ids, True, True, "none")]
     for stable in (None, [], [ids[0]], ids):
         for scalar in (False, True):
@@ -329,7 +343,8 @@ def eval_case(case):
     if case.get("tier") != "thorough":
         live_order = [*plain, plain[0], *[c for c in combos if c[3] == "permutate"]]
     schedule = [(ci, c, False) for ci, c in enumerate(combos)]
-    if dyn in {"none", "bw"} and (case.get("tier") == "thorough" or (dyn == "none" and align in {"none", "dpd1"})):
+    thorough_live = case.get("tier") == "thorough" and (align == "none" or dyn == "none")
+    if dyn in {"none", "bw"} and (thorough_live or (dyn == "none" and align in {"none", "dpd1"})):
         schedule += [(100 + k, c, True) for k, c in enumerate(live_order)]
     live_builder = None
     for ci, (stable, scalar, couplings, extra), live in schedule:
